@@ -143,6 +143,9 @@ pub struct Classes {
     pub observers_created_in_handlers: u32,
     pub subscriptions_made_in_handlers: u32,
     pub unsubscribed_in_handlers: u32,
+    pub inner_vars: u32,
+    pub inner_var_writes: u32,
+    pub probes: u32,
 }
 
 #[derive(Clone, Debug)]
@@ -178,6 +181,8 @@ pub struct Harness<'p> {
     /// C13: do not treat the injected panic as a C04 failure
     pub tolerate_injected: bool,
     node_handlers: u32,
+    /// handles of closure-created variables the model never heard of (round cut short by a panic)
+    stray_vars: Vec<incremental::Var<Val>>,
 }
 
 pub const EXPECTED_PANICS: [&str; 2] = ["node with too large height", "harness bug"];
@@ -210,6 +215,7 @@ impl<'p> Harness<'p> {
             quiescent: false,
             tolerate_injected: false,
             node_handlers: 0,
+            stray_vars: vec![],
         }
     }
 
@@ -634,6 +640,95 @@ impl<'p> Harness<'p> {
         Some(self.nodes.len() - 1)
     }
 
+    /// Variables created by bind closures during the stabilise (decoder 4) become ordinary handles of
+    /// the history: they can be written, targeted by writer nodes, observed through their watch
+    /// node (a node created on the right-hand side when `var_current_scope` made it) and dropped.
+    fn adopt_inner_vars(&mut self) {
+        let vs: Vec<(Tag, incremental::Var<Val>, Val)> = build::INNER_VARS.with(|i| std::mem::take(&mut *i.borrow_mut()));
+        for (tag, var, v) in vs {
+            if !self.model.has(tag) {
+                // the round was cut short (panic): keep the handle until the end of the case
+                self.stray_vars.push(var);
+                continue;
+            }
+            let scoped = self.model.node(tag).scope.is_some();
+            self.trace.push(format!("   (bind closure created variable #{tag} = {v:?}{})", if scoped { " in its own scope" } else { "" }));
+            if scoped {
+                self.model.node_mut(tag).grabbed = true;
+            }
+            self.nodes.push(NodeH { tag, incr: Some(var.watch()) });
+            self.vars.push(VarH { tag, var: Some(var), handler_owner: None });
+            self.classes.inner_vars += 1;
+        }
+    }
+
+    /// Read-only public calls at an arbitrary point of the history (decoder 4): none may panic, and
+    /// none may change what the history observes afterwards.
+    pub fn act_probe(&mut self, which: usize) {
+        if self.ended {
+            return;
+        }
+        self.classes.probes += 1;
+        let st = self.st().clone();
+        let obs: Vec<Observer<Val>> = (0..self.obs.len()).filter_map(|i| self.first_clone(i)).collect();
+        let vars: Vec<incremental::Var<Val>> = self.vars.iter().filter_map(|v| v.var.clone()).collect();
+        let nodes: Vec<Incr<Val>> = self.nodes.iter().filter_map(|n| n.incr.clone()).collect();
+        self.trace.push(format!("probe {which}"));
+        let r = guarded(|| match which {
+            0 => {
+                // graphviz dump of everything observed, and of each observer's cone
+                let all = st.weak().save_dot_to_string();
+                let mut n = all.len();
+                for o in &obs {
+                    n += o.save_dot_to_string().len();
+                }
+                n
+            }
+            1 => {
+                let s = st.stats();
+                let _ = format!("{s:?}");
+                let _ = st.is_stable();
+                st.is_stabilising() as usize
+            }
+            2 => {
+                let mut n = 0;
+                for v in &vars {
+                    n += v.was_changed_during_stabilisation() as usize;
+                    let _ = v.id();
+                    let _ = format!("{:?}", v.get());
+                }
+                n
+            }
+            _ => {
+                let mut n = 0;
+                for x in &nodes {
+                    n += x.state().strong_count();
+                    let w = x.weak();
+                    n += w.strong_count() + w.weak_count();
+                    if let Some(y) = nodes.first() {
+                        n += (x == y) as usize;
+                    }
+                    let _ = format!("{x:?}");
+                }
+                for o in &obs {
+                    n += o.state().strong_count();
+                }
+                n
+            }
+        });
+        drop(obs);
+        drop(vars);
+        drop(nodes);
+        match r {
+            Err(m) => self.on_panic("read-only public call", m),
+            Ok(n) => {
+                if which == 1 && n != 0 {
+                    self.fail("C07", "is-stabilising-outside", "is_stabilising() returned true outside stabilise".to_string());
+                }
+            }
+        }
+    }
+
     pub fn act_subscribe(&mut self, oi: usize, acts: Vec<HAct>) {
         if self.ended {
             return;
@@ -894,6 +989,9 @@ impl<'p> Harness<'p> {
         let res = guarded(|| st.stabilise());
         let events = take_log();
         self.classes.stabilises += 1;
+        if res.is_err() {
+            self.adopt_inner_vars();
+        }
         if let Err(m) = res {
             self.poisoned = true;
             if self.tolerate_injected && m.contains(trace::INJECTED_PANIC) {
@@ -906,6 +1004,7 @@ impl<'p> Harness<'p> {
             return self.on_panic("stabilise", m);
         }
         self.model.process_round(&roots, &events);
+        self.adopt_inner_vars();
         if std::env::var("VTRACE").is_ok() {
             for e in &events {
                 self.trace.push(format!("      . {e:?}"));
@@ -1591,6 +1690,7 @@ impl<'p> Harness<'p> {
             if p.subscriptions && !active_subs.is_empty() { 1 } else { 0 },              // 14 state unsubscribe
             if p.subscriptions && !ln.is_empty() && crate::choice::dv() >= 2 { 2 } else { 0 }, // 15 node-level on_update handler
             if crate::choice::dv() >= 2 { 1 } else { 0 },                                // 16 reconfigure the height limit (far above any height in use)
+            if p.probes && crate::choice::dv() >= 4 { 2 } else { 0 },                    // 17 read-only public calls
         ];
         let a = ch.weighted(&w);
         self.classes.actions += 1;
@@ -1683,6 +1783,11 @@ impl<'p> Harness<'p> {
                 if let Err(m) = guarded(|| st.set_max_height_allowed(n)) {
                     self.on_panic("set_max_height_allowed", m);
                 }
+            }
+            17 => {
+                label = "probe";
+                let which = ch.choose(4);
+                self.act_probe(which);
             }
             15 => {
                 label = "on_update";
